@@ -73,7 +73,7 @@ Qed.
 Lemma ordered_split : exists pre post, ordered_style_props = pre ++ p_Position :: post /\
   ~ In p_Position post /\ ~ In p_Origin post /\ ~ In p_Position pre.
 Proof.
-  exists [p_FontSize; p_Extent; p_Origin]. eexists. split; [reflexivity|].
+  exists [p_FontSize; p_Disparity; p_Extent; p_Origin]. eexists. split; [reflexivity|].
   repeat split; cbn; intros H; repeat (destruct H as [H|H]; [discriminate|]); exact H.
 Qed.
 
